@@ -392,7 +392,7 @@ class SpawnProcess(multiprocessing.context.SpawnProcess):
         # if exitcode >= 0:
         #     raise ValueError(f'expecting negative `exitcode` but got {exitcode}')
 
-        if self._future_.exception():
+        if self._future_.exception() is not None:
             raise self._future_.exception()
         # else:
         #     raise ChildProcessError(
